@@ -282,7 +282,13 @@ class LessLexer:
 
     def t_newline(self, t):
         r'[\n\r]+'
+        # A line break separates tokens exactly like a blank does.
         t.lexer.lineno += t.value.count('\n')
+        if t.lexer.lexstate == 'iselector':
+            t.lexer.pop_state()
+        t.type = 't_ws'
+        t.value = ' '
+        return t
 
     def t_css_comment(self, t):
         r'(/\*(.|\n|\r)*?\*/)'
